@@ -22,7 +22,7 @@ CHECKS = {
         "and Python, compiled, and every value of a per-leaf boundary alphabet (incl. storage-range values that must "
         "saturate/truncate, NaN/inf, unrepresentable lengths/tags) is serialized; size and bytes must equal an independent "
         "reference encoder written over the PyDSDL model.",
-        "PyDSDL 1.25 and vf/codec/ref.py are trusted; gcc 12 on a little-endian host; cetl/pmr flavours not executed; value "
+        "PyDSDL 1.25 and vf/codec/ref.py are trusted; gcc 12 on a little-endian host; cetl flavour not executed (CETL submodule empty); value "
         "alphabets and array capacities are small (bounds in evidence).",
         "DESIGN.md section 3, C01",
     ),
@@ -44,7 +44,7 @@ CHECKS = {
         "set): C any/little/big x asserts, C++14/17/20, Python. Oracle is purely relational and independent of the reference "
         "codec: des(ser(v)) == v for in-range values, ser(des(ser(v))) == ser(v), the deserializer accepts its own serializer's "
         "output, and bytes / decoded values / error verdicts are equal for ALL pairs of configurations.",
-        "Little-endian host (big-endian option only checked for equivalence); cetl/pmr flavours not executed; one recorded "
+        "Little-endian host (big-endian option only checked for equivalence); cetl flavour not executed (CETL submodule empty); one recorded "
         "finding (float16 tie rounding C/C++ vs Python) in known_findings.json.",
         "DESIGN.md section 3, C03",
     ),
